@@ -29,6 +29,7 @@ class FS:
         self.md_first = True
         self.lock = threading.Lock()
         self.hold = None         # Event holding pool workers back (worker timing "late")
+        self.shared = None       # path of an append-only event log shared with worker *processes* (multiprocess settings)
 
     def reset(self, base, fault=None, md_first=True):
         self.md_first = md_first
@@ -37,6 +38,22 @@ class FS:
         self.fault = fault
         self.count = {}
         self.fired = False
+        self.shared = None
+
+    def share(self, path):
+        """Events of worker processes forked later are appended to `path` too; a fault fires in one process only."""
+        self.shared = path
+        open(path, "a").close()
+
+    def shared_log(self):
+        import json as _json
+        out = []
+        with open(self.shared) as f:
+            for line in f:
+                line = line.strip()
+                if line:
+                    out.append(_json.loads(line))
+        return out
 
     def norm(self, p):
         return str(p).replace(self.base, "$D")
@@ -50,6 +67,16 @@ class FS:
             self.count[label] = k + 1
             self.log.append((label, k))
             hit = self.fault is not None and not self.fired and self.fault[0] == label and self.fault[1] == k
+            if self.shared is not None:
+                import json as _json
+                fd = _real_os.open(self.shared, _real_os.O_WRONLY | _real_os.O_APPEND)
+                _real_os.write(fd, (_json.dumps([label, k]) + "\n").encode())
+                _real_os.close(fd)
+                if hit:         # claim the firing across processes
+                    try:
+                        _real_os.close(_real_os.open(self.shared + ".fired", _real_os.O_CREAT | _real_os.O_EXCL | _real_os.O_WRONLY))
+                    except FileExistsError:
+                        hit = False
             if hit:
                 self.fired = True
         if hit:
